@@ -33,6 +33,8 @@ fn us(s: &str) -> Option<usize> {
     s.parse().ok()
 }
 
+const NFORMS: usize = 8;
+
 /// history step (C02); `None` = malformed token
 fn hist_step<T: L>(n: usize, regs: &mut Vec<T>, tok: &str) -> Option<()> {
     let ps: Vec<&str> = tok.split(',').collect();
@@ -60,10 +62,12 @@ fn hist_step<T: L>(n: usize, regs: &mut Vec<T>, tok: &str) -> Option<()> {
             }
         }
         ("mov", 3) => r(ps[2], regs)?,
-        ("not", 3) => r(ps[2], regs)?.not_form(0),
-        ("and", 4) => r(ps[2], regs)?.bin_form(0, 0, &r(ps[3], regs)?),
-        ("or", 4) => r(ps[2], regs)?.bin_form(1, 0, &r(ps[3], regs)?),
-        ("xor", 4) => r(ps[2], regs)?.bin_form(2, 0, &r(ps[3], regs)?),
+        // every syntactic form of the operators is a public way to build a value: the form is
+        // chosen by the register numbers of the step
+        ("not", 3) => r(ps[2], regs)?.not_form((d + us(ps[2])?) % 4),
+        ("and", 4) => r(ps[2], regs)?.bin_form(0, (d + 2 * us(ps[2])? + 3 * us(ps[3])?) % NFORMS, &r(ps[3], regs)?),
+        ("or", 4) => r(ps[2], regs)?.bin_form(1, (d + 2 * us(ps[2])? + 3 * us(ps[3])?) % NFORMS, &r(ps[3], regs)?),
+        ("xor", 4) => r(ps[2], regs)?.bin_form(2, (d + 2 * us(ps[2])? + 3 * us(ps[3])?) % NFORMS, &r(ps[3], regs)?),
         ("flip", 4) => r(ps[2], regs)?.flip_cp(us(ps[3])?),
         ("swap", 5) => r(ps[2], regs)?.swap_cp(us(ps[3])?, us(ps[4])?),
         ("swadj", 4) => r(ps[2], regs)?.swapadj_cp(us(ps[3])?),
